@@ -1,8 +1,107 @@
-//! C03 — call-by-need: the C01 generator with `std.trace` labels planted at memoised positions
-//! (locals, arguments, array elements, object fields) and error bombs in unneeded positions; the
-//! multiset of trace labels must equal the one of the call-by-need definitional interpreter.
-use crate::common::Opts;
+//! C03 — call-by-need.
+//! `c03`  : the C01 generator with `std.trace` labels planted at memoised positions (locals,
+//!          arguments, array elements, object fields) and error bombs in unneeded positions; the
+//!          sorted multiset of trace labels must equal the one of the call-by-need definitional
+//!          interpreter (so nothing unneeded ran and nothing shared ran twice).
+//! `c03t` : the real `MemoizedClosureThunk` driven by scripted, re-entrant closures, against the
+//!          memo automaton `Model/Thunk.lean`.
+use std::cell::RefCell;
+
+use jrsonnet_evaluator::{
+	error::ErrorKind,
+	val::{MemoizedClosureThunk, Thunk},
+	Result, Val,
+};
+use jrsonnet_gcmodule::{Cc, Trace};
+use serde_json::{json, Value};
+
+use crate::common::{guarded, CaseWriter, Opts};
+
+thread_local! {
+	static RUNS: RefCell<usize> = const { RefCell::new(0) };
+	static INNER: RefCell<Vec<String>> = const { RefCell::new(Vec::new()) };
+}
+
+#[derive(Trace)]
+struct Env {
+	reenters: usize,
+	final_kind: u8,
+	final_val: u32,
+	cell: Cc<RefCell<Option<Thunk<Val>>>>,
+}
+
+fn show(r: &Result<Val>) -> String {
+	match r {
+		Ok(Val::Num(n)) => format!("ok:{}", n.get() as i64),
+		Ok(_) => "ok:?".into(),
+		Err(e) => match e.error() {
+			ErrorKind::InfiniteRecursionDetected => "infrec".into(),
+			ErrorKind::RuntimeError(m) => format!("err:{m}"),
+			_ => "err:?".into(),
+		},
+	}
+}
+
+fn body(env: Env) -> Result<Val> {
+	RUNS.with_borrow_mut(|r| *r += 1);
+	let me = env.cell.borrow().clone().expect("cell set");
+	for _ in 0..env.reenters {
+		let r = me.evaluate();
+		INNER.with_borrow_mut(|v| v.push(show(&r)));
+	}
+	match env.final_kind {
+		0 => Ok(Val::Num((env.final_val as i32).into())),
+		1 => Err(ErrorKind::RuntimeError(env.final_val.to_string().into()).into()),
+		_ => Err(ErrorKind::InfiniteRecursionDetected.into()),
+	}
+}
+
+fn run_thunk(opts: &Opts) {
+	let mut w = CaseWriter::new(&opts.out);
+	for reenters in 0..=3usize {
+		for (fk, fv) in [(0u8, 1u32), (0, 5), (1, 7), (2, 0)] {
+			for gets in 1..=4usize {
+				RUNS.with_borrow_mut(|r| *r = 0);
+				let cell: Cc<RefCell<Option<Thunk<Val>>>> = Cc::new(RefCell::new(None));
+				let t: Thunk<Val> = Thunk::new(MemoizedClosureThunk::new(
+					Env { reenters, final_kind: fk, final_val: fv, cell: cell.clone() },
+					body,
+				));
+				*cell.borrow_mut() = Some(t.clone());
+				let mut per: Vec<Value> = Vec::new();
+				for _ in 0..gets {
+					INNER.with_borrow_mut(Vec::clear);
+					let before = RUNS.with_borrow(|r| *r);
+					let r = guarded(|| t.evaluate());
+					let ans = match &r {
+						Ok(r) => show(r),
+						Err(_) => "panic".into(),
+					};
+					let ran = RUNS.with_borrow(|r| *r) > before;
+					per.push(json!({"answer": ans, "inner": INNER.with_borrow(Clone::clone), "ran": ran}));
+				}
+				*cell.borrow_mut() = None;
+				let fin = match fk {
+					0 => format!("ok:{fv}"),
+					1 => format!("err:{fv}"),
+					_ => "infrec".into(),
+				};
+				w.case(
+					json!({"op":"thunk.script","reenters":reenters,"final":fin,"gets":gets,"size":reenters+gets}),
+					json!({"gets": per, "runs": RUNS.with_borrow(|r| *r)}),
+				);
+			}
+		}
+	}
+	let meta = json!({"engine":"c03t","cases":w.n,
+		"rule":"MemoizedClosureThunk with a scripted closure: 0..3 re-entrant reads of its own cell, then ok/err/infinite-recursion; 1..4 outer reads; observed: each answer, what the closure saw on re-entry, whether the body ran, total runs"});
+	w.finish(meta, &opts.out);
+}
 
 pub fn run(opts: &Opts) {
-	super::c01::run_engine(opts, true);
+	if opts.engine == "c03t" {
+		run_thunk(opts);
+	} else {
+		super::c01::run_engine(opts, true);
+	}
 }
